@@ -115,6 +115,8 @@ def parse_operand(s):
         p, i = parse_place(s, 5); assert i == len(s), s; return Move(p)
     if s.startswith('const '):
         return Const(s[6:])
+    # a function item passed as a value is printed as its bare path (zero-sized constant)
+    if re.match(r'^(<|[A-Za-z_][\w]*::)', s) and ' ' not in s.split('<')[0]: return Const('ZeroSized: ' + s)
     raise ValueError('operand? ' + s)
 
 # ---------------- rvalues / statements -----------------
